@@ -255,8 +255,14 @@ func (m *Manager) AddBlocks(blocks []types.Block) error {
 	for _, b := range blocks {
 		bid := b.ID()
 		var ok bool
-		if _, bs, _ := m.store.Block(bid); bs != nil {
+		if _, bs, ok := m.store.Block(bid); bs != nil {
 			// already have this block
+			cs, _ = m.store.State(bid)
+			continue
+		} else if _, pruned := m.store.Header(bid); pruned && !ok {
+			// the header is still there but the body is gone: the block was
+			// validated, applied and later pruned. Storing it again would
+			// replace its state and drop its supplement.
 			cs, _ = m.store.State(bid)
 			continue
 		} else if b.ParentID != cs.Index.ID {
